@@ -40,6 +40,7 @@ import (
 	"github.com/thushan/olla/internal/config"
 	"github.com/thushan/olla/internal/core/domain"
 	"github.com/thushan/olla/internal/core/ports"
+	"github.com/thushan/olla/internal/zz_verif/stack"
 	"github.com/thushan/olla/internal/zz_verif/vlib"
 )
 
@@ -415,6 +416,38 @@ func words(alpha []int64, n int, f func([]int64)) {
 
 func sec(f float64) time.Duration { return time.Duration(f * float64(time.Second)) }
 
+// loopScenario: the production wiring (app.CreateAndStartServiceManager), one endpoint whose backend refuses
+// connections while the stack starts and accepts them from then on. Nothing drives the checker here: the
+// background loop the discovery service starts must come back to the endpoint by itself ("every configured
+// endpoint keeps being probed for real at bounded intervals ... becomes routable again on the first probe
+// that succeeds"). The loop's ticker period is DefaultHealthCheckInterval, so this takes about that long.
+func loopScenario() map[string]any {
+	b := stack.NewBackend("L")
+	defer b.Close()
+	b.SetBehaviour(stack.Behaviour{Kind: "ok", Status: 200, Headers: [][2]string{{"Content-Type", "application/json"}}, Body: []byte("{}")})
+	b.Refuse()
+	s, err := stack.Start(stack.Opts{Engine: "sherpa", Balancer: "priority", EPs: []stack.EP{{Name: "L", Type: "openai", Priority: 100, Backend: b, Interval: 2 * time.Second, Timeout: time.Second}}})
+	if err != nil {
+		return map[string]any{"start_err": err.Error()}
+	}
+	defer s.Stop()
+	time.Sleep(300 * time.Millisecond) // the start-up round has run against the refusing backend
+	before := s.Statuses()["L"]
+	b.Listen()
+	hits0 := b.HealthHits()
+	t0 := time.Now()
+	bound := health.DefaultHealthCheckInterval + 15*time.Second
+	status := before
+	for time.Since(t0) < bound {
+		status = s.Statuses()["L"]
+		if status == string(domain.StatusHealthy) {
+			break
+		}
+		time.Sleep(100 * time.Millisecond)
+	}
+	return map[string]any{"status_at_start": before, "status": status, "probes": b.HealthHits() - hits0, "waited_ms": time.Since(t0).Milliseconds(), "bound_ms": bound.Milliseconds()}
+}
+
 func main() {
 	tier := vlib.Tier()
 	thorough := tier == "thorough"
@@ -434,6 +467,8 @@ func main() {
 		c.Close(map[string]any{"replay": rp})
 		return
 	}
+	loopRes := make(chan map[string]any, 1)
+	go func() { loopRes <- loopScenario() }()
 	workers := 4 * runtime.GOMAXPROCS(0)
 	if workers > 64 {
 		workers = 64
@@ -618,6 +653,8 @@ func main() {
 
 	slowWG.Wait()
 	emit(c, slowRes)
+	c.Emit(map[string]any{"kind": "loop", "impl": <-loopRes})
+	c.Count("loop.production-wiring")
 
 	c.Close(map[string]any{"exhaustive": true, "reruns_for_timing": atomic.LoadInt64(&reruns), "dropped_for_timing": atomic.LoadInt64(&dropped),
 		"exhaustive_note": "all histories of " + map[bool]string{false: "5", true: "7"}[thorough] +
